@@ -266,13 +266,15 @@ impl Cred {
 
     fn check_app_attrs(&self, ctx: &mut Ctx, sim: &Sim, bytes: &[u8], raw: &RawMsg, app: &[LAttr], tail_start: usize) {
         let wit = || w(sim, bytes, &format!("application attributes: {:?}", app.iter().map(|a| a.kind_name()).collect::<Vec<_>>()));
-        // expected ordinary attributes: one per type, first-insertion position, last value
+        // expected ordinary attributes: one per type, first-insertion position
         let owned: Vec<u16> = match &sim.cfg.mech {
             Mech::None => vec![],
             Mech::ShortTerm(_) => vec![wire::T_USERNAME],
             Mech::LongTerm => vec![wire::T_USERNAME, wire::T_USERHASH, wire::T_REALM, wire::T_NONCE, wire::T_PASSWORD_ALGORITHM, wire::T_PASSWORD_ALGORITHMS],
         };
-        let mut expect: Vec<(u16, Vec<u8>)> = Vec::new();
+        // one per type at the position of its first insertion; WHICH of several values supplied
+        // for one type is kept is not stated (today: the last) - any of them is accepted
+        let mut expect: Vec<(u16, Vec<Vec<u8>>)> = Vec::new();
         for a in app {
             let t = a.type_code();
             if is_tail(t) {
@@ -280,18 +282,23 @@ impl Cred {
             }
             let v = wire::attr_value(a, &raw.txid, &mut Zero);
             match expect.iter_mut().find(|e| e.0 == t) {
-                Some(e) => e.1 = v,
-                None => expect.push((t, v)),
+                Some(e) => e.1.push(v),
+                None => expect.push((t, vec![v])),
             }
         }
         expect.retain(|e| !owned.contains(&e.0));
         let got: Vec<(u16, Vec<u8>)> = raw.attrs[..tail_start].iter().map(|a| (a.typ, a.value.clone())).collect();
         // the packet must start with exactly the expected application attributes ...
-        if got.len() < expect.len() || got[..expect.len()] != expect[..] {
-            let gt: Vec<u16> = got.iter().map(|g| g.0).collect();
-            let et: Vec<u16> = expect.iter().map(|g| g.0).collect();
-            let sig = if gt.len() >= et.len() && gt[..et.len()] == et[..] { "c13:application-attribute-value" } else { "c13:application-attributes-order-or-set" };
-            self.v(ctx, M_C13, sig, format!("packet attribute types {:x?} ; expected to start with the application's {:x?} (one per type, first-insertion order, last value)", gt, et), wit());
+        let gt: Vec<u16> = got.iter().map(|g| g.0).collect();
+        let et: Vec<u16> = expect.iter().map(|g| g.0).collect();
+        let types_ok = gt.len() >= et.len() && gt[..et.len()] == et[..];
+        let values_ok = types_ok && expect.iter().zip(got.iter()).all(|(e, g)| e.1.contains(&g.1));
+        if values_ok && expect.iter().zip(got.iter()).any(|(e, g)| e.1.last() != Some(&g.1)) {
+            ctx.count("c13.suspicion.duplicate-type-keeps-an-earlier-value");
+        }
+        if !values_ok {
+            let sig = if types_ok { "c13:application-attribute-value" } else { "c13:application-attributes-order-or-set" };
+            self.v(ctx, M_C13, sig, format!("packet attribute types {:x?} ; expected to start with the application's {:x?} (one per type, first-insertion order, a value the application supplied)", gt, et), wit());
             return;
         }
         // ... followed only by attributes owned by the mechanism, each at most once
